@@ -163,6 +163,28 @@ pub fn pending_scenario(focus: Vec<u8>) -> BoxedStrategy<Vec<TOp>> {
         .boxed()
 }
 
+/// A full bucket whose only disconnected node is the front one gets a waiting node; the front node
+/// then leaves the table (removed) and a connected node takes the free slot: every stored node is
+/// connected now, and the waiting node's time-out elapses.
+pub fn pending_front_replaced(focus: Vec<u8>) -> BoxedStrategy<Vec<TOp>> {
+    (proptest::sample::select(focus), any::<u32>(), any::<bool>(), any::<bool>(), proptest::option::of((0u8..16, any::<bool>())), any::<bool>())
+        .prop_map(|(bucket, inc, pend_incoming, new_incoming, later_status, via_entry)| {
+            let key = |pat: u8| KeyRef::Rel(RelKey { bucket, pat });
+            let mut v = vec![TOp::Fill { bucket, n: 16, conn: !1u32, inc }];
+            v.push(TOp::InsertOrUpdate { key: key(16), value: 1, connected: true, incoming: pend_incoming });
+            v.push(if via_entry { TOp::EntryRemove { key: key(0) } } else { TOp::Remove { key: key(0) } });
+            v.push(TOp::InsertOrUpdate { key: key(17), value: 2, connected: true, incoming: new_incoming });
+            v.push(TOp::ExpirePending { bucket });
+            v.push(TOp::Iter);
+            if let Some((pat, connected)) = later_status {
+                v.push(TOp::UpdateStatus { key: key(pat), connected, direction: None });
+                v.push(TOp::Iter);
+            }
+            v
+        })
+        .boxed()
+}
+
 pub fn config_strategy() -> BoxedStrategy<TableConfig> {
     (
         any::<[u8; 32]>(),
